@@ -96,7 +96,7 @@ def generate(rng, tier):
                 cases.append(("b%d" % n, [mk_line(sc, FUT, vq[:8] + allq[:8])]))
                 n += 1
     nr = 300 if tier == "quick" else 5000
-    alphabet = "AaBb019.:* \tz_"
+    alphabet = "AaBb019.:* \tz_" + "\u00a0\u2003\u000b\u0085\u3000"      # incl. whitespace beyond ASCII (split_whitespace)
     for _ in range(nr):
         base = rng.choice(["read:A.B", "actuate:Ab.*", "provide", "create:A read:B2", "read:*.B"])
         s = list(base)
